@@ -129,6 +129,13 @@ func buildProvider(c Cell) (core.Provider, string, error) {
 		}
 		path = vkit.WriteMem([]byte(b.String()))
 		conf = map[string]any{"type": "json", "source": map[string]any{"type": "file", "path": path}}
+	case "json-inline":
+		// the same provider fed from the config itself (source: {type: inline, data: …})
+		var b strings.Builder
+		for i := 0; i < c.Entries; i++ {
+			fmt.Fprintf(&b, `{"k": %d}`+"\n", i)
+		}
+		conf = map[string]any{"type": "json", "source": map[string]any{"type": "inline", "data": b.String()}}
 	}
 	conf["limit"] = c.Limit
 	conf["passes"] = c.Passes
@@ -343,7 +350,7 @@ func runEngine(res *vkit.Result, c Cell, p core.Provider, exp int, watchdog time
 	return ""
 }
 
-var kinds = []string{"uri", "uripost", "raw", "jsonline-lines", "jsonline-array", "grpc/json", "http/scenario", "grpc/scenario", "json"}
+var kinds = []string{"uri", "uripost", "raw", "jsonline-lines", "jsonline-array", "grpc/json", "http/scenario", "grpc/scenario", "json", "json-inline"}
 
 func cells(kind string) []Cell {
 	var out []Cell
@@ -415,7 +422,7 @@ func main() {
 		child()
 		return
 	}
-	res := vkit.NewResult("complete matrix: provider kind {uri, uripost, raw, http/json lines, http/json array} × preload {off,on}, grpc/json, http/scenario, grpc/scenario (ring size from weights incl. a common divisor), generic json × entries {1,2,3,5} × limit {0,1,2,E−1,E,E+1,2E+1} × passes {0,1,2,3} × consumers {1,3}, at provider level (Run + Acquire loops) and at engine level (real engine, counting gun); plus, per file-reading kind, a cancel while the provider is still reading a 1.5 MiB input through a slow filesystem (reads after the cancel are counted); distinct = distinct cells; non-trivial = at least one bound is set")
+	res := vkit.NewResult("complete matrix: provider kind {uri, uripost, raw, http/json lines, http/json array} × preload {off,on}, grpc/json, http/scenario, grpc/scenario (ring size from weights incl. a common divisor), generic json from a file and from an inline source × entries {1,2,3,5} × limit {0,1,2,E−1,E,E+1,2E+1} × passes {0,1,2,3} × consumers {1,3}, at provider level (Run + Acquire loops) and at engine level (real engine, counting gun); plus, per file-reading kind, a cancel while the provider is still reading a 1.5 MiB input through a slow filesystem (reads after the cancel are counted); distinct = distinct cells; non-trivial = at least one bound is set")
 	var batches [][]json.RawMessage
 	total := 0
 	for _, k := range kinds {
